@@ -3,6 +3,7 @@ package main
 import (
 	"fmt"
 	"go/types"
+	"math"
 	"strings"
 )
 
@@ -561,6 +562,84 @@ func builtinModels() map[string]modelFn {
 			st.pools = np
 		}
 		e.finish(st, c, nil)
+	}
+
+	m["math.Float64frombits"] = func(e *Engine, st *State, c *callCtx) {
+		t := c.args[0].(*Term)
+		if !t.IsConst() {
+			e.unsupported(st, "symbolic Float64frombits")
+		}
+		e.finish(st, c, FloatVal{math.Float64frombits(t.val), 64})
+	}
+	m["math.Float64bits"] = func(e *Engine, st *State, c *callCtx) {
+		e.finish(st, c, e.ctx.BV(64, math.Float64bits(c.args[0].(FloatVal).f)))
+	}
+	m["math.Float32frombits"] = func(e *Engine, st *State, c *callCtx) {
+		t := c.args[0].(*Term)
+		if !t.IsConst() {
+			e.unsupported(st, "symbolic Float32frombits")
+		}
+		e.finish(st, c, FloatVal{float64(math.Float32frombits(uint32(t.val))), 32})
+	}
+	m["math.Float32bits"] = func(e *Engine, st *State, c *callCtx) {
+		e.finish(st, c, e.ctx.BV(32, uint64(math.Float32bits(float32(c.args[0].(FloatVal).f)))))
+	}
+
+	// minimal reflect model: ValueOf on a value of a basic kind and Kind() on it (enough for
+	// code that only asks "is this a string/int/float?"); everything else in reflect is unsupported
+	m["reflect.ValueOf"] = func(e *Engine, st *State, c *callCtx) {
+		iv := c.args[0].(IfaceVal)
+		e.finish(st, c, AggVal{[]Value{iv, PtrVal{}, e.ctx.BV(64, 0)}})
+	}
+	m["(reflect.Value).Kind"] = func(e *Engine, st *State, c *callCtx) {
+		rv := c.args[0].(AggVal)
+		iv, ok := rv.slots[0].(IfaceVal)
+		if !ok {
+			e.unsupported(st, "reflect.Value.Kind on a value not built by the reflect.ValueOf model")
+		}
+		kind := uint64(0) // Invalid
+		if iv.typ != nil {
+			switch u := iv.typ.Underlying().(type) {
+			case *types.Basic:
+				switch u.Kind() {
+				case types.Bool:
+					kind = 1
+				case types.Int:
+					kind = 2
+				case types.Int8:
+					kind = 3
+				case types.Int16:
+					kind = 4
+				case types.Int32:
+					kind = 5
+				case types.Int64:
+					kind = 6
+				case types.Uint:
+					kind = 7
+				case types.Uint8:
+					kind = 8
+				case types.Uint16:
+					kind = 9
+				case types.Uint32:
+					kind = 10
+				case types.Uint64:
+					kind = 11
+				case types.Uintptr:
+					kind = 12
+				case types.Float32:
+					kind = 13
+				case types.Float64:
+					kind = 14
+				case types.String:
+					kind = 24
+				default:
+					e.unsupported(st, "reflect.Kind of "+iv.typ.String())
+				}
+			default:
+				e.unsupported(st, "reflect.Kind of "+iv.typ.String())
+			}
+		}
+		e.finish(st, c, e.ctx.BV(64, kind))
 	}
 
 	registerIntrinsics(m)
